@@ -18,7 +18,9 @@ RULE = (
     "EVERY stage {geometry, spot, spectrum, taus, decay, optical EAS, optical integral, radio EAS, SNR, radio integral} "
     "as the site of one injected failure of each kind {Exception subclass, BaseException-only (interrupt)}, and write_stages in {True, False}; the file left on disk is compared with a "
     "reference model of 'stage -> columns and header keys it adds' written from the property text, and with the "
-    "un-faulted final table. Distinct by (configuration, crash boundary | faulted stage, write_stages)."
+    "un-faulted final table. Two-run histories on ONE output file in one process: (stage that stops run A | none) x (stage that "
+    "stops run B | none), B with another seed, judged against B's prefix; runs with a plot callable that rescales results in "
+    "place and a failing later stage. Distinct by (configuration, crash boundary | faulted stage, write_stages)."
 )
 ASSUMPTIONS = [
     "a death in the middle of one Table.write (torn write) is outside the property (it speaks of stage boundaries and stage failures)",
